@@ -1,4 +1,5 @@
-import Preflate.Props.C12
+import Preflate.Props.LibraryApi
+#print axioms Preflate.library_wrapper_roundtrip_small
 #print axioms Preflate.wrapCompress_status
 #print axioms Preflate.wrapCompress_undersized
 #print axioms Preflate.wrapDecompress_status
